@@ -590,6 +590,11 @@ class Report:
             "evaluations": max(self.evaluations, self.traces),
             "distinct_nontrivial": len(self.nontrivial),
             "divergences_benign": len(self.divergences),
+            "rule": self.extra.pop("rule", None) or (
+                "cases are the action sequences (edge-cover walks, TLC-simulated behaviours, enumerated inputs or "
+                "crash points, seeded random histories) executed on the real implementation and validated by TLC; "
+                "a case is counted in distinct_nontrivial once per distinct canonical content (hash) and only if it "
+                "contains at least one action beyond object construction/reset"),
         }
         cov.update(self.extra)
         ev = {"property_id": self.prop, "tier": self.tier, "seed": seed(), "level": self.level,
